@@ -10,8 +10,8 @@ func (s *Sim) c20Final() {
 	}
 	sent := map[int][]rng{}
 	for _, op := range s.sc.Peer {
-		if op.Kind != "data" {
-			continue
+		if op.Kind != "data" || op.Truncate != 0 {
+			continue // (a request cut short on purpose has not sent its parts)
 		}
 		for _, p := range op.Parts {
 			sent[p.File] = append(sent[p.File], rng{p.Beg, p.End})
